@@ -647,6 +647,18 @@ func (e *Eval) call(n *Node) Val {
 			v := e.eval(args[0])
 			key := x.memKey(types.Typ[types.Int64])
 			return Val{T: fmt.Sprintf("(select %s %s)", x.get(e.st, key), v.T), Typ: types.Typ[types.Int64], Addr: &Addr{Kind: "cell", Key: key, Ref: v.T}}
+		case "panicked":
+			// panicked(): inside an always clause of an assumed contract — the call ended in a panic
+			v, ok := e.env["$panicked"]
+			if !ok {
+				e.fail("panicked() is only meaningful in an always clause of an assumed contract")
+			}
+			return v
+		case "deepequal":
+			// deepequal(a, b): reflect.DeepEqual on interface values (uninterpreted, reflexive)
+			a, b := e.eval(args[0]), e.eval(args[1])
+			x.declRaw("fun:deq", "(declare-fun deq (Iface Iface) Bool)")
+			return Val{T: fmt.Sprintf("(or (= %s %s) (deq %s %s))", a.T, b.T, a.T, b.T), Sort: "Bool"}
 		case "oncedone":
 			// oncedone(o): the sync.Once at address o has run
 			v := e.eval(args[0])
